@@ -185,6 +185,26 @@ def run_extraction(case):
                 z.close()
             except Exception:  # noqa
                 pass
+        # a second archive extracted into the same destination (which now holds whatever the first one left, links included)
+        if case.get("then"):
+            raw2 = build_archive(case["then"], root)
+            z2 = py7zr.SevenZipFile(io.BytesIO(raw2), "r")
+            rec.on = True
+            try:
+                if case["dest"] == "abs":
+                    z2.extractall(J)
+                elif case["dest"] == "rel":
+                    z2.extractall("J")
+                else:
+                    z2.extractall()
+            except Exception as e:  # noqa
+                raised = raised or type(e).__name__
+            finally:
+                rec.on = False
+                try:
+                    z2.close()
+                except Exception:  # noqa
+                    pass
     finally:
         os.chdir(cwd)
     after = snapshot(root, J)
